@@ -12,4 +12,6 @@ for profile in duplex pools; do
   /verif/bin/instr -repo /repo -out /verif/out/overlay-$profile -profile $profile -shim /verif/tools/instr/shim
   (cd harness && $GO test -c -vet=off -tags verif -overlay /verif/out/overlay-$profile/overlay.json -o /verif/out/bin/props-$profile.test ./props)
 done
+# the free-running -race pass of C13 (both tiers): warm the race-instrumented build as well
+(cd harness && $GO test -c -race -vet=off -tags verif -overlay /verif/out/overlay-pools/overlay.json -o /verif/out/bin/props-pools-race.test ./props)
 echo "setup ok"
